@@ -6,8 +6,8 @@
 -/
 import SV.Persist.Proofs
 import SV.Persist.CrashProofs
-import SV.FactsProofs
-import SV.GenProofs
+import SV.FactsProofs.Persist
+import SV.GenProofs.Persist
 namespace SV.Props.C10
 open SV SV.Persist
 
